@@ -290,6 +290,12 @@ Definition builder := N -> N -> list node * N.
 Definition fixed_bld (m : nat) : builder :=
   fun _ nx => (map (fun j => (nx + N.of_nat j)%N) (seq 0 m), (nx + N.of_nat m)%N).
 
+(** the item of key [k] owns [m k] consecutive nodes (harness mode 20: rows of any shape — nested
+    keyed lists, Vec, Option, Either, tuples … —, of which the keyed list only sees the top-level
+    nodes their states own, in mount order) *)
+Definition var_bld (m : N -> nat) : builder :=
+  fun k nx => (map (fun j => (nx + N.of_nat j)%N) (seq 0 (m k)), (nx + N.of_nat (m k))%N).
+
 (** [view_fn(at, item).1.build()] *)
 Definition build_item (b : builder) (k : N) (w : work) : item :=
   {| it_key := k; it_gen := w_gen w; it_nodes := fst (b k (w_next w)) |}.
